@@ -578,10 +578,11 @@ def polls(rng, blocking):
 
 
 DETAILS_VARIANTS = list(details_variants())
-# p_socket_shutdown compares its pboolean arguments with `== TRUE`: with a read flag other than 0 / 1, or a write flag other than
-# 0 / 1 next to a set read flag, the direction shut down is not the one asked for (coverage/sockets-shutdown-pboolean.replay; the
-# model follows the code, the spec line differs).  The generators use the values for which code and spec agree.
-SHUTDOWN_FLAGS = ["0 0", "0 1", "1 0", "1 1", "0 1", "1 0", "1 1", "0 2", "0 -1", "0 256", "0 2147483647", "0 -2147483648"]
+# p_socket_shutdown's two pboolean arguments: every non-zero C int means TRUE (Spec.shutdownArgs).  Before the repair (known_findings.json,
+# "fixed", C10) the function compared them with `== TRUE`: (2, 0) shut the WRITE direction down, (2, 2) shut only WRITE down and left
+# `connected` set, (1, 2) shut only READ down.  The non-canonical pairs are what makes an unrepaired tree alarm.
+SHUTDOWN_FLAGS = ["0 0", "0 1", "1 0", "1 1", "0 1", "1 0", "1 1", "0 2", "0 -1", "0 256", "0 2147483647", "0 -2147483648",
+                  "2 0", "2 2", "1 2", "2 1", "-1 0", "-1 -1", "256 0", "1 -1", "2147483647 -2147483648", "-2147483648 1", "7 9"]
 
 
 def random_sequence(rng, n, chk=None):
